@@ -132,7 +132,7 @@ V: List[Tuple[str, str, str, str, Any, Any, Optional[str]]] = [
     ("C17", "re.escape dropped", "breaking", S + "finders.py", "            re.compile(re.escape(p) + \"$\") if isinstance(p, str) else p\n            for p in app_settings.STATIC_FILES_ALLOWED", "            re.compile(p + \"$\") if isinstance(p, str) else p\n            for p in app_settings.STATIC_FILES_ALLOWED", "S1"),
     ("C17", "or instead of and", "breaking", S + "finders.py", "        return any_regex_match(path, allowed_patterns) and no_regex_match(path, forbidden_patterns)", "        return any_regex_match(path, allowed_patterns) or no_regex_match(path, forbidden_patterns)", "S3"),
     ("C17", "filter removed from list()", "breaking", S + "finders.py", "                    if self._is_path_valid(path):\n                        yield path, storage", "                    if True:\n                        yield path, storage", "S2"),
-    ("C17", "safe_join deleted", "breaking", S + "finders.py", "        path = safe_join(root, path)\n", "        path = os.path.join(root, path)\n", "S2"),
+    ("C17", "safe_join deleted", "breaking", S + "finders.py", "        abs_path = safe_join(root, path)\n", "        abs_path = os.path.join(root, path)\n", "S2"),
     ("C17", ".py allowed by default", "breaking", S + "app_settings.py", "        \".css\",\n        \".js\", \".jsx\", \".ts\", \".tsx\",", "        \".css\", \".py\",\n        \".js\", \".jsx\", \".ts\", \".tsx\",", "S4"),
     ("C17", "pattern compilation via helper variable", "preserving", S + "finders.py", "        # Normalize patterns to regexes\n", "        # Normalize patterns (suffixes) to regexes\n", None),
     # ---- C18
